@@ -136,6 +136,18 @@ func (a *Analyzer) AnalyzeResolved(resolved *include.ResolvedJournal) *AnalysisR
 	return result
 }
 
+// orderedFiles returns the included journals in the order they were loaded (FileOrder), so that lists built from
+// them do not depend on map iteration order.
+func orderedFiles(resolved *include.ResolvedJournal) []*ast.Journal {
+	journals := make([]*ast.Journal, 0, len(resolved.FileOrder))
+	for _, path := range resolved.FileOrder {
+		if journal, ok := resolved.Files[path]; ok {
+			journals = append(journals, journal)
+		}
+	}
+	return journals
+}
+
 func collectAccountsFromResolved(resolved *include.ResolvedJournal) *AccountIndex {
 	idx := NewAccountIndex()
 	seen := make(map[string]bool)
@@ -149,7 +161,7 @@ func collectAccountsFromResolved(resolved *include.ResolvedJournal) *AccountInde
 		}
 	}
 
-	for _, journal := range resolved.Files {
+	for _, journal := range orderedFiles(resolved) {
 		for _, name := range CollectAccounts(journal).All {
 			if !seen[name] {
 				seen[name] = true
@@ -174,7 +186,7 @@ func collectPayeesFromResolved(resolved *include.ResolvedJournal) []string {
 		}
 	}
 
-	for _, journal := range resolved.Files {
+	for _, journal := range orderedFiles(resolved) {
 		for _, p := range CollectPayees(journal) {
 			if !seen[p] {
 				seen[p] = true
@@ -199,7 +211,7 @@ func collectCommoditiesFromResolved(resolved *include.ResolvedJournal) []string 
 		}
 	}
 
-	for _, journal := range resolved.Files {
+	for _, journal := range orderedFiles(resolved) {
 		for _, c := range CollectCommodities(journal) {
 			if !seen[c] {
 				seen[c] = true
@@ -224,7 +236,7 @@ func collectTagsFromResolved(resolved *include.ResolvedJournal) []string {
 		}
 	}
 
-	for _, journal := range resolved.Files {
+	for _, journal := range orderedFiles(resolved) {
 		for _, t := range CollectTags(journal) {
 			if !seen[t] {
 				seen[t] = true
@@ -258,7 +270,7 @@ func collectTagValuesFromResolved(resolved *include.ResolvedJournal) map[string]
 	}
 
 	mergeTagValues(resolved.Primary)
-	for _, journal := range resolved.Files {
+	for _, journal := range orderedFiles(resolved) {
 		mergeTagValues(journal)
 	}
 
@@ -282,7 +294,7 @@ func collectDatesFromResolved(resolved *include.ResolvedJournal) []string {
 	}
 
 	mergeDates(resolved.Primary)
-	for _, journal := range resolved.Files {
+	for _, journal := range orderedFiles(resolved) {
 		mergeDates(journal)
 	}
 
